@@ -13,6 +13,10 @@
 //!    one line with line breaks inside empty bracket pairs / next to brackets, each also wrapped in a
 //!    field, a call and an array behind a name of random length, so that the 100-column limit falls
 //!    on different tokens of the same program.
+//!    A third stream (`span.*`, fixed point only) is about TOKENS that span lines or contain tabs:
+//!    quoted / verbatim strings with literal line breaks, tabs, CR and trailing blanks, `/* */`
+//!    comments with tabs and differing indentation, text blocks with tabs / blank / whitespace-only
+//!    lines — every enumerated shape at nesting depth 0..=3 under every indent setting.
 //!  * `fmt.main`  — the `jrsonnet-fmt` binary against `FmtMain.run` (Lean) fed with the table of
 //!    in-process `format` results: exit code and stdout for plain / `--test` / `--conv-limit` runs.
 //!  * `fmt.deep`  — the binary on deeply nested input (separate process: stack exhaustion).
@@ -660,6 +664,460 @@ fn gen_program(rng: &mut Rng, depth: usize, rich: bool) -> Vec<String> {
 	g.toks
 }
 
+// ------------------------------------------------------------------------------------------
+// tokens that span lines or contain tabs (also used by the C19 engine)
+// ------------------------------------------------------------------------------------------
+//
+// Every printer hands token text to `PushText::push_text` (string literals, comment lines, text
+// block lines, unterminated comments).  Text with a tab or a line break cannot travel as one dprint
+// string; it is cut into string / Tab / NewLine signals, and a text that spans lines is bracketed
+// by Start/FinishIgnoringIndent so that the continuation lines of the TOKEN are not indented like
+// code.  The family below enumerates the shapes that decision depends on (where the first tab, the
+// first line break, a CR, trailing blanks sit relative to each other) for every token kind that
+// can carry them, and places each token at nesting depth 0..=3 so that there is an indentation to
+// get wrong.
+
+/// bodies of string literals: (label, text between the quotes)
+pub const SPAN_BODIES: [(&str, &str); 34] = [
+	("tab-only", "a\tb"),
+	("tab-only-leading", "\ta"),
+	("tab-only-trailing", "a\t"),
+	("tab-only-two", "a\tb\tc"),
+	("tab-alone", "\t"),
+	("nl-only", "a\nb"),
+	("nl-alone", "\n"),
+	("nl-leading", "\na"),
+	("nl-trailing", "a\n"),
+	("nl-two", "a\nb\nc"),
+	("nl-blank-line", "a\n\nb"),
+	("tab-before-first-nl", "a\tb\nc"),
+	("tab-before-first-nl-tsv", "name\tvalue\nfoo\t1\n"),
+	("tab-before-first-nl-leading", "\ta\nb"),
+	("tab-before-first-nl-adjacent", "a\t\nb"),
+	("tab-nl-alone", "\t\n"),
+	("tab-after-first-nl", "a\nb\tc"),
+	("tab-after-first-nl-adjacent", "a\n\tb"),
+	("nl-tab-alone", "\n\t"),
+	("tab-after-second-nl", "a\nb\nc\td"),
+	("tab-both-sides", "a\tb\nc\td"),
+	("tab-both-sides-adjacent", "a\t\n\tb"),
+	("trailing-spaces-before-nl", "a  \nb"),
+	("trailing-space-and-tab-before-nl", "a \t \nb"),
+	("leading-spaces-after-nl", "a\n    b"),
+	("ws-only-line", "a\n   \nb"),
+	("ws-only-line-tab", "a\n\t\nb"),
+	("cr", "a\rb"),
+	("crlf", "a\r\nb"),
+	("tab-crlf", "a\tb\r\nc\td\r\n"),
+	("cr-before-tab", "a\r\tb\nc"),
+	("nl-then-closing-quote-indented", "a\n  "),
+	("brackets-inside", "{\n\t[\n(\n"),
+	("comment-like-inside", "a // b\t\n/* c\n# d"),
+];
+
+const SPAN_QUOTES: [(&str, &str, &str); 4] = [("dq", "\"", "\""), ("sq", "'", "'"), ("vdq", "@\"", "\""), ("vsq", "@'", "'")];
+
+/// `/* … */` comments: line breaks, tabs, differing indentation, gutters
+pub const SPAN_COMMENTS: [(&str, &str); 26] = [
+	("one-line-tab", "/* a\tb */"),
+	("one-line-leading-tab", "/*\ta */"),
+	("two-lines", "/* a\n   b */"),
+	("two-lines-tab-first", "/* a\tb\n   c */"),
+	("two-lines-tab-second", "/* a\n\tb\tc */"),
+	("own-lines-tab-indent", "/*\n\ta\n\tb\n*/"),
+	("own-lines-tab-deeper", "/*\n\ta\n\t\tb\n\t\t\tc\n*/"),
+	("own-lines-space-deeper", "/*\n  a\n    b\n   c\n*/"),
+	("own-lines-mixed-indent", "/*\n \ta\n \t\tb\n*/"),
+	("own-lines-tab-vs-space", "/*\n\ta\n  b\n*/"),
+	("own-lines-inner-tab", "/*\n  a\tb\n  c\td\n*/"),
+	("own-lines-blank", "/*\n  a\n\n  b\n*/"),
+	("own-lines-ws-only", "/*\n  a\n   \t\n  b\n*/"),
+	("own-lines-trailing-ws", "/*\n  a  \n  b\t\n*/"),
+	("closing-indented", "/*\n  a\n  */"),
+	("closing-tab-indented", "/*\n\ta\n\t*/"),
+	("gutter", "/*\n * a\n * b\n */"),
+	("gutter-tab", "/*\n *\ta\n *\t\tb\n */"),
+	("doc", "/** a\n * b\n */"),
+	("doc-tab", "/**\n *\ta\n * b\tc\n */"),
+	("doc-tab-lines", "/**\n\ta\n\t\tb\n*/"),
+	("crlf", "/* a\r\n   b\r\n */"),
+	// run only when `comment_exclusion` says the formatter settles on them (today: skipped, counted)
+	("doc-empty-gutter-line", "/**\n * a\n *\n * b\n */"),
+	("gutter-empty-gutter-line", "/*\n * a\n *\n * b\n */"),
+	("immediate-then-blank-line", "/*  a\n\n  b*/"),
+	("no-text", "/*\n\t\n*/"),
+];
+
+/// text blocks: tabs, blank and whitespace-only lines, chomping, terminator indentation
+pub const SPAN_BLOCKS: [(&str, &str); 22] = [
+	("plain", "|||\n  a\n  b\n|||"),
+	("chomp", "|||-\n  a\n  b\n|||"),
+	("tab-indent", "|||\n\ta\n\tb\n|||"),
+	("tab-indent-chomp", "|||-\n\ta\n|||"),
+	("two-tab-indent", "|||\n\t\ta\n\t\t\tb\n|||"),
+	("mixed-indent", "|||\n \ta\n \t b\n|||"),
+	("inner-tab", "|||\n  a\tb\n  c\td\n|||"),
+	("inner-leading-tab", "|||\n  a\n  \tb\n|||"),
+	("tab-indent-inner-tab", "|||\n\ta\tb\n\t\tc\n|||"),
+	("blank-line", "|||\n  a\n\n  b\n|||"),
+	("blank-lines-end", "|||\n  a\n\n\n|||"),
+	("blank-line-chomp", "|||-\n  a\n\n|||"),
+	("ws-only-spaces", "|||\n  a\n     \n  b\n|||"),
+	("ws-only-tab", "|||\n  a\n  \t\n  b\n|||"),
+	("ws-only-mixed", "|||\n\ta\n\t \t \n\tb\n|||"),
+	("indent-only-line", "|||\n  a\n  \n  b\n|||"),
+	("trailing-ws", "|||\n  a  \n  b\t\n  c \t \n|||"),
+	("deeper", "|||\n  a\n      b\n   c\n|||"),
+	("terminator-indented", "|||\n    a\n  |||"),
+	("terminator-tab-indented", "|||\n  a\n\t|||"),
+	("first-line-blank", "|||\n\n  a\n|||"),
+	("crlf", "|||\r\n  a\r\n  b\r\n|||"),
+];
+
+/// one generated program around one (or two) tokens that span lines / contain tabs
+pub struct Spanning {
+	/// `<token kind>.<shape>` — histogram key
+	pub label: String,
+	pub depth: usize,
+	pub src: String,
+	/// Some(reason): generated, but NOT run — the token falls under a defect of the unchanged
+	/// formatter that is reported separately (see `comment_exclusion`); engines count it
+	pub skip: Option<&'static str>,
+}
+
+/// Model of what comments.rs (`format_comments`, MultiLineComment) prints for a `/* */` comment at
+/// indentation 0: trailing blanks trimmed, leading / trailing blank lines dropped, the common
+/// white-space-or-`*` prefix of the lines removed, doc comments (`/**`) given a ` * ` gutter.
+/// None = the comment is not printed at all.  Only used to DESCRIBE the comments the family leaves out.
+fn comment_reprint(c: &str) -> Option<String> {
+	fn prefix(a: &str, b: &str) -> usize {
+		a.bytes().zip(b.bytes()).take_while(|(a, b)| a == b && (a.is_ascii_whitespace() || *a == b'*')).count()
+	}
+	let mut text = c.strip_prefix("/*")?.strip_suffix("*/")?;
+	let doc = text.starts_with('*');
+	if doc {
+		text = &text[1..];
+	}
+	let mut lines: Vec<String> = text.split('\n').map(|l| l.trim_end().to_string()).collect();
+	let lead = lines.iter().take_while(|l| l.is_empty()).count();
+	let immediate = lead == 0;
+	lines.drain(..lead);
+	while lines.last().is_some_and(String::is_empty) {
+		lines.pop();
+	}
+	if lines.is_empty() {
+		return None;
+	}
+	if lines.len() == 1 && !doc {
+		return Some(format!("/* {} */", lines[0].trim()));
+	}
+	let first = if immediate && lines.len() > 1 { lines[1].clone() } else { lines[0].clone() };
+	let mut pad = first[..prefix(&first, &first)].to_string();
+	for l in lines.iter().skip(if immediate { 2 } else { 1 }).filter(|l| !l.is_empty()) {
+		pad.truncate(prefix(&pad, l));
+	}
+	for l in lines.iter_mut().skip(usize::from(immediate)).filter(|l| !l.is_empty()) {
+		*l = l.strip_prefix(pad.as_str())?.to_string();
+	}
+	let mut out = String::from(if doc { "/**\n" } else { "/*\n" });
+	for l in lines {
+		if doc {
+			out.push_str(" *");
+		}
+		if !l.is_empty() {
+			if doc {
+				out.push(' ');
+			}
+			let body = l.trim_start_matches('\t');
+			for _ in 0..l.len() - body.len() {
+				out.push_str(if doc { "    " } else { "\t" });
+			}
+			out.push_str(body);
+		}
+		out.push('\n');
+	}
+	out.push_str(if doc { " */" } else { "*/" });
+	Some(out)
+}
+
+/// Comments the family generates but does not run, because the UNCHANGED formatter mishandles them
+/// (genuine defects found by this family, reported separately; none of them needs a tab):
+///  * "dropped": a `/* */` comment without any text (`/**/`, `/* */`, `/*\n\n*/`) is not printed at all
+///    (C19: a comment is lost);
+///  * "reindent-not-settled": the re-indentation step is not a projection on this comment — printing
+///    the printed comment again changes it (C20).  Witnesses: `/**\n * a\n *\n * b\n */` (a doc
+///    comment with an empty gutter line: every pass inserts one more blank behind the gutter, never
+///    settles), `/*\n * a\n *\n * b\n */` (first pass strips ` *`, second pass the blank),
+///    `/*  a\n\n  b*/` (text directly behind `/*` and a blank second line: un-indented by the second
+///    pass only), `/**\n *\ta\n * b\tc\n */` (gutter followed by a tab on one line, a blank on the next).
+pub fn comment_exclusion(c: &str) -> Option<&'static str> {
+	let Some(once) = comment_reprint(c) else { return Some("dropped") };
+	match comment_reprint(&once) {
+		Some(twice) if twice == once => None,
+		_ => Some("reindent-not-settled"),
+	}
+}
+
+/// kinds of positions a token can be put into
+#[derive(Clone, Copy, PartialEq)]
+enum Hole {
+	/// any expression
+	Value,
+	/// a string literal (not a text block) is required: field names, import paths
+	Str,
+}
+
+/// wrappers: tokens before / after the hole, and whether the hole is a string-literal-only place.
+/// All of them evaluate without error when the hole is a string (C19 evaluates them).
+const SPAN_WRAPS: [(&str, &[&str], &[&str]); 20] = [
+	("field", &["{", "k", ":"], &["}"]),
+	("field-mid", &["{", "a", ":", "1", ",", "k", "::"], &[",", "b", ":", "2", ",", "}"]),
+	("field-plus", &["{", "k", ":", "'p'", "}", "+", "{", "k", "+:"], &["}"]),
+	("array", &["["], &["]"]),
+	("array-mid", &["[", "0", ","], &[",", "1", ",", "]"]),
+	("call", &["std", ".", "length", "("], &[")"]),
+	("call-named", &["(", "function", "(", "s", ",", "t", "=", "1", ")", "s", ")", "(", "t", "=", "2", ",", "s", "="], &[")"]),
+	("call-second", &["std", ".", "startsWith", "(", "'a'", ","], &[")"]),
+	("param-default", &["(", "function", "(", "p", "="], &[")", "p", ")", "(", ")"]),
+	("local", &["local", "v", "="], &[";", "v"]),
+	("local-second", &["local", "u", "=", "1", ",", "v", "="], &[";", "[", "u", ",", "v", "]"]),
+	("paren", &["("], &[")"]),
+	("concat-left", &[], &["+", "'t'"]),
+	("concat-right", &["'t'", "+"], &[]),
+	("if-then", &["if", "true", "then"], &["else", "null"]),
+	("if-else", &["if", "false", "then", "null", "else"], &[]),
+	("array-comp", &["["], &["for", "i", "in", "[", "1", ",", "2", "]", "]"]),
+	("obj-comp", &["{", "[", "'k'", "+", "i", "]", ":"], &["for", "i", "in", "[", "'a'", "]", "}"]),
+	("assert-msg", &["assert", "true", ":"], &[";", "1"]),
+	("index", &["{", "k", ":", "1", "}", "["], &["]"]),
+];
+/// wrappers whose hole takes a string literal only (innermost position)
+const SPAN_STR_WRAPS: [(&str, &[&str], &[&str]); 4] = [
+	("field-name", &["{"], &[":", "1", "}"]),
+	("field-name-mid", &["{", "a", ":", "1", ","], &["::", "2", ",", "}"]),
+	("in-object", &[], &["in", "{", "k", ":", "1", "}"]),
+	("dyn-field-name", &["{", "["], &["]", ":", "1", "}"]),
+];
+
+/// token list of a program with the hole at nesting depth `depth`: (tokens before, tokens after, names)
+fn span_context(rng: &mut Rng, depth: usize, hole: Hole) -> (Vec<String>, Vec<String>, Vec<&'static str>) {
+	let mut pre: Vec<String> = Vec::new();
+	let mut post: Vec<Vec<String>> = Vec::new();
+	let mut names = Vec::new();
+	for level in 0..depth {
+		let innermost = level + 1 == depth;
+		let (name, a, b) = if innermost && hole == Hole::Str && rng.chance(1, 2) {
+			*rng.pick(&SPAN_STR_WRAPS)
+		} else {
+			*rng.pick(&SPAN_WRAPS)
+		};
+		names.push(name);
+		pre.extend(a.iter().map(|s| (*s).to_string()));
+		post.push(b.iter().map(|s| (*s).to_string()).collect());
+	}
+	let mut after = Vec::new();
+	while let Some(p) = post.pop() {
+		after.extend(p);
+	}
+	(pre, after, names)
+}
+
+/// joins wrapper tokens: on one line, or with source line breaks behind brackets / commas
+fn span_join(rng: &mut Rng, toks: &[String], broken: bool, s: &mut String) {
+	for t in toks {
+		if !s.is_empty() {
+			let last = s.chars().last().unwrap_or(' ');
+			if broken && matches!(last, '{' | '[' | '(' | ',' | ';') && rng.chance(2, 3) {
+				s.push('\n');
+			} else if !last.is_whitespace() {
+				s.push(' ');
+			}
+		}
+		s.push_str(t);
+	}
+}
+
+fn span_program(rng: &mut Rng, depth: usize, hole: Hole, token: &str, broken: bool) -> (String, Vec<&'static str>) {
+	let (pre, post, names) = span_context(rng, depth, hole);
+	let mut s = String::new();
+	span_join(rng, &pre, broken, &mut s);
+	if !s.is_empty() {
+		s.push(if broken && rng.chance(1, 3) { '\n' } else { ' ' });
+	}
+	s.push_str(token);
+	let mut tail = String::new();
+	span_join(rng, &post, broken, &mut tail);
+	if !tail.is_empty() {
+		// a closing bracket on a line of its own now and then (`,` stays on the token's line)
+		s.push(if broken && !tail.starts_with(',') && rng.chance(1, 3) { '\n' } else { ' ' });
+		s.push_str(&tail);
+	}
+	(s, names)
+}
+
+/// a program whose spanning token is a COMMENT: a small valid program with the comment at one of
+/// its token boundaries (before/behind values, commas, brackets; on its own line or inline)
+fn span_comment_program(rng: &mut Rng, depth: usize, comment: &str) -> String {
+	let value = *rng.pick(&["1", "'s'", "null", "[ ]", "{ }"]);
+	let (mut toks, post, _) = span_context(rng, depth, Hole::Value);
+	let lo = toks.len();
+	toks.push(value.to_string());
+	toks.extend(post);
+	// boundary: mostly next to the value, otherwise anywhere (0 = start of file, len = end of file)
+	let at = if rng.chance(2, 3) { lo + rng.below(2) } else { rng.below(toks.len() + 1) };
+	let mut s = String::new();
+	for (i, t) in toks.iter().enumerate() {
+		if i == at {
+			s.push_str(*rng.pick(&["", " ", "\n", "\n\n", "\n  ", "\n\t"]));
+			s.push_str(comment);
+			s.push_str(*rng.pick(&["", " ", "\n", "\n\n", " \n"]));
+		} else if i > 0 {
+			s.push(' ');
+		}
+		s.push_str(t);
+	}
+	if at == toks.len() {
+		s.push_str(*rng.pick(&[" ", "\n", "\n\n"]));
+		s.push_str(comment);
+		s.push_str(*rng.pick(&["", "\n"]));
+	}
+	s
+}
+
+/// random string body out of the pieces the enumerated shapes are made of
+fn span_random_body(rng: &mut Rng) -> String {
+	let n = 1 + rng.below(7);
+	let mut s = String::new();
+	for _ in 0..n {
+		s.push_str(*rng.pick(&[
+			"a", "bc", "name", "é", "1", " ", "  ", "\t", "\t", "\t\t", "\n", "\n", "\n\n", "\r", "\r\n", " \n", "\t\n", "\n\t", "\n  ", ",", ":", "{", "]",
+			"%", "#", "//", "|||",
+		]));
+	}
+	s
+}
+fn span_random_comment(rng: &mut Rng) -> String {
+	let doc = rng.chance(1, 5);
+	let mut s = String::from(if doc { "/**" } else { "/*" });
+	let n = 1 + rng.below(5);
+	// never text glued to the `**` of a doc comment (`/**- h`): the formatter prints it as ` * - h`,
+	// which is the same comment, but C19's comment projection compares white-space separated words
+	// and would see `*-` become `-`
+	s.push_str(*rng.pick(if doc { &[" ", " ", "\n", "\t", " a\tb\n"] } else { &["", " ", "\n", "\t", " a\tb\n"] }));
+	for _ in 0..n {
+		s.push_str(*rng.pick(&["", " ", "  ", "\t", "\t\t", " \t", "    ", " * ", " *\t", "\t * "]));
+		s.push_str(*rng.pick(&["a", "b c", "d\te", "", "", "f  ", "g\t", "- h"]));
+		s.push_str(*rng.pick(&["\n", "\n", "\n", "\n\n", "\r\n"]));
+	}
+	s.push_str(*rng.pick(&["", " ", "  ", "\t", "   "]));
+	s.push_str("*/");
+	s
+}
+fn span_random_block(rng: &mut Rng) -> String {
+	let indent = *rng.pick(&["  ", "\t", " ", "    ", "\t\t", " \t", "\t "]);
+	let mut s = String::from(if rng.chance(1, 3) { "|||-\n" } else { "|||\n" });
+	let n = 1 + rng.below(5);
+	for i in 0..n {
+		let k = if i == 0 { 6 + rng.below(4) } else { rng.below(10) };
+		match k {
+			0 => s.push('\n'),
+			1 => {
+				s.push_str(indent);
+				s.push_str(*rng.pick(&[" ", "   ", "\t", " \t", "\t "]));
+				s.push('\n');
+			}
+			2 => {
+				s.push_str(indent);
+				s.push('\n');
+			}
+			3 => {
+				s.push_str(indent);
+				s.push_str(*rng.pick(&["x  \n", "x\t\n", "x \t \n"]));
+			}
+			4 => {
+				s.push_str(indent);
+				s.push_str(*rng.pick(&["  deeper\n", "\tdeeper\n", "\t\tdeeper\ttab\n"]));
+			}
+			5 | 6 => {
+				s.push_str(indent);
+				s.push_str("col\tumn\tx\n");
+			}
+			_ => {
+				s.push_str(indent);
+				s.push_str(*rng.pick(&["line", "k: v", "||| no end", "# c", "/* c"]));
+				s.push('\n');
+			}
+		}
+	}
+	let closers: Vec<&str> = ["", "  ", "\t", "      ", " "].into_iter().filter(|c| !c.starts_with(indent)).collect();
+	s.push_str(*rng.pick(&closers));
+	s.push_str("|||");
+	s
+}
+
+fn quote_body(q: usize, body: &str) -> String {
+	let (_, open, close) = SPAN_QUOTES[q];
+	format!("{open}{body}{close}")
+}
+
+/// The family: every enumerated token shape at every depth 0..=3 (random wrapper chain, once on one
+/// line and once with source line breaks), plus `n_random` programs around random tokens.
+pub fn spanning_programs(rng: &mut Rng, n_random: usize) -> Vec<Spanning> {
+	let mut out = Vec::new();
+	let mut k = 0usize;
+	for (shape, body) in SPAN_BODIES {
+		for q in 0..SPAN_QUOTES.len() {
+			let token = quote_body(q, body);
+			for depth in 0..=3usize {
+				k += 1;
+				let (src, _) = span_program(rng, depth, Hole::Str, &token, k % 2 == 0);
+				out.push(Spanning { label: format!("str-{}.{shape}", SPAN_QUOTES[q].0), depth, src, skip: None });
+			}
+		}
+	}
+	for (shape, block) in SPAN_BLOCKS {
+		for depth in 0..=3usize {
+			k += 1;
+			let (src, _) = span_program(rng, depth, Hole::Value, block, k % 2 == 0);
+			out.push(Spanning { label: format!("block.{shape}"), depth, src, skip: None });
+		}
+	}
+	for (shape, comment) in SPAN_COMMENTS {
+		for depth in 0..=3usize {
+			for _ in 0..2 {
+				let src = span_comment_program(rng, depth, comment);
+				out.push(Spanning { label: format!("comment.{shape}"), depth, src, skip: comment_exclusion(comment) });
+			}
+		}
+	}
+	for i in 0..n_random {
+		let depth = rng.below(4);
+		let broken = rng.chance(1, 2);
+		match i % 4 {
+			0 | 1 => {
+				let q = rng.below(SPAN_QUOTES.len());
+				let mut token = quote_body(q, &span_random_body(rng));
+				if rng.chance(1, 4) {
+					token = format!("{token} + {}", quote_body(rng.below(4), &span_random_body(rng)));
+				}
+				let (src, _) = span_program(rng, depth, if token.contains(" + ") { Hole::Value } else { Hole::Str }, &token, broken);
+				out.push(Spanning { label: format!("str-{}.random", SPAN_QUOTES[q].0), depth, src, skip: None });
+			}
+			2 => {
+				let token = span_random_block(rng);
+				let (src, _) = span_program(rng, depth, Hole::Value, &token, broken);
+				out.push(Spanning { label: "block.random".into(), depth, src, skip: None });
+			}
+			_ => {
+				let c = span_random_comment(rng);
+				let src = span_comment_program(rng, depth, &c);
+				out.push(Spanning { label: "comment.random".into(), depth, src, skip: comment_exclusion(&c) });
+			}
+		}
+	}
+	out
+}
+
 const VOCAB: [&str; 70] = [
 	"x", "y", "1", "2.5", "\"s\"", "'t'", "@\"v\"", "|||\n a\n|||", "|||", "(", ")", "[", "]", "{", "}", ":",
 	"::", ":::", ",", ".", ";", "=", "+", "-", "*", "/", "%", "!", "~", "==", "!=", "<", "<=", ">", ">=",
@@ -1093,6 +1551,25 @@ pub fn run(opts: &Opts) {
 		}
 	}
 
+	// ---- tokens that span lines or contain tabs, at nesting depth 0..=3, every indent setting ----
+	// (own PRNG stream: the corpora above stay what they were for a given seed)
+	{
+		let mut srng = Rng::new(opts.seed ^ 0x5_BA11);
+		for sp in spanning_programs(&mut srng, if thorough { 3000 } else { 300 }) {
+			let kind = sp.label.split('.').next().unwrap_or("?").to_string();
+			if let Some(why) = sp.skip {
+				c.bump(&format!("span.{kind}.excluded-{why}"));
+				continue;
+			}
+			let mut valid = false;
+			for indent in [0u8, 2, 4] {
+				valid |= c.idem(&format!("span.{}.depth{}", sp.label, sp.depth), &sp.src, indent).is_some();
+			}
+			c.bump(&format!("span.{kind}.{}", if valid { "valid" } else { "rejected" }));
+			c.bump(&format!("span.depth{}", sp.depth));
+		}
+	}
+
 	// ---- the jrsonnet-fmt binary against FmtMain (Lean) ----
 	if let Some(bin) = fmt_bin() {
 		let mut inputs: Vec<String> = programs.iter().take(if thorough { 64 } else { 24 }).cloned().collect();
@@ -1147,7 +1624,7 @@ pub fn run(opts: &Opts) {
 	let n = c.w.n;
 	c.w.finish(
 		json!({"engine":"c20","cases":n,"hist":hist,
-			"rule":"format() guarded on boundary/bytes/token-soup/mutants/truncations (diagnostic-branch outcome vs Lean model); format∘format = format on generated valid programs × indent {tabs,2,4}; jrsonnet-fmt binary vs FmtMain.run"}),
+			"rule":"format() guarded on boundary/bytes/token-soup/mutants/truncations (diagnostic-branch outcome vs Lean model); format∘format = format on generated valid programs × indent {tabs,2,4}, incl. the span stream (every enumerated shape of a string literal / block comment / text block that spans lines or contains tabs, CR, trailing blanks, at nesting depth 0..=3); jrsonnet-fmt binary vs FmtMain.run"}),
 		&opts.out,
 	);
 }
